@@ -291,7 +291,8 @@ class Ref:
 
     @staticmethod
     def names_nodup(at):
-        names = [q for q, _ in at]
+        # expanded name (namespace, local); in no namespace the (unresolved) prefix is kept
+        names = [((q[0], "", q[2]) if q[1] == "" else (None, q[1], q[2])) for q, _ in at]
         return len(names) == len(set(names))
 
     def child_ok(self, newp, parentless, child):
@@ -870,6 +871,44 @@ def select_cases():
     add([E("select"), "ap,0,n1", E("selectedcontent"), "ap,1,n2", E("option", sel), "ap,1,n3",
          ce("template", [], "t"), "ap,3,n4", "ap,5," + T("in"), "cc," + hx("c"), "ap,3,n6", "mc,3"])
     add([E("select"), "ap,0,n1", E("selectedcontent"), "ap,1,n2", "ap,2," + T("old"), E("option", sel), "ap,1,n3", "mc,3"])
+    # several selectedcontent elements at different depths / positions: the first in TREE ORDER is the target
+    # (shapes = nested lists; "S" = a selectedcontent, a list = a wrapper element with those children)
+    def build(shape, parent, ops, counter, names):
+        for item in shape:
+            nid = counter[0]
+            counter[0] += 1
+            if item == "S":
+                ops += [E("selectedcontent", [("id", "s%d" % nid)]), "ap,%d,n%d" % (parent, nid),
+                        "ap,%d,%s" % (nid, T("old%d" % nid))]
+            else:
+                ops += [E(names[len(item) % len(names)]), "ap,%d,n%d" % (parent, nid)]
+                build(item, nid, ops, counter, names)
+    shapes = [
+        [[["S"], "S"]], [["S", "S"]], [[["S"], ["S"]]], [[[["S"]], "S"], "S"], [[[], ["S"], "S"]],
+        [["S", ["S"]]], [[[["S"], "S"]]], [[["S"], [], "S"]], ["S", ["S"]], [["S"], "S"], [[[]], [["S"], "S"]],
+        [[["S", "S"], "S"]], [[[[], "S"], ["S"]]], [[["S"]], [["S"]]],
+    ]
+    for sh in shapes:
+        for opt_first in (False, True):
+            ops = [E("select"), "ap,0,n1"]
+            counter = [2]
+            if opt_first:
+                ops += [E("option", sel), "ap,1,n2", "ap,2," + T("A")]
+                counter = [3]
+                optid = 2
+            build(sh, 1, ops, counter, ["button", "span", "div"])
+            if not opt_first:
+                optid = counter[0]
+                ops += [E("option", sel), "ap,1,n%d" % optid, "ap,%d,%s" % (optid, T("A"))]
+            add(ops + ["mc,%d" % optid])
+    # replaced children that have handles: their parent links must be cleared, and they can be re-used
+    base = [E("select"), "ap,0,n1", E("selectedcontent"), "ap,1,n2", E("b"), "ap,2,n3", "ap,2," + T("t"),
+            "cc," + hx("c"), "ap,2,n4", E("option", sel), "ap,1,n5", "ap,5," + T("A"), E("i"), "ap,5,n6"]
+    add(base + ["mc,5"])
+    add(base + ["mc,5", "ap,0,n3"])
+    add(base + ["mc,5", "abs,5,n4", "mc,5"])
+    add(base + ["mc,5", "ap,2,n3", "mc,5", "ap,1,n3"])
+    add(base + ["mc,5", "abp,3,2," + T("y"), "abp,3,2,n4"])
     # nested selects: the nearest one counts
     add([E("select"), "ap,0,n1", E("selectedcontent", [("id", "outer")]), "ap,1,n2", E("select"), "ap,1,n3",
          E("selectedcontent", [("id", "inner")]), "ap,3,n4", E("option", sel), "ap,3,n5", "ap,5," + T("A"), "mc,5"])
@@ -965,6 +1004,11 @@ FIXED_HTML = [
     "<select><button><selectedcontent></selectedcontent></button><option selected>A<b>B</b></option></select>",
     "<select><option>A<option selected>B<selectedcontent>", "<select multiple><selectedcontent></selectedcontent><option selected>A</select>",
     "<select><optgroup><option selected>x</optgroup><div><selectedcontent>old</selectedcontent></div></select>",
+    "<select><selectedcontent><table><option selected>x</option>y", "<select><selectedcontent><b>q<option selected>x</option>y</b>z",
+    "<select><button><span><selectedcontent id=a></selectedcontent></span><selectedcontent id=b></selectedcontent></button><option selected>x</option>",
+    "<select><button><selectedcontent id=a></selectedcontent><selectedcontent id=b></selectedcontent></button><option selected>x</option>",
+    "<select><div><div><selectedcontent id=a></selectedcontent></div><p><selectedcontent id=b></selectedcontent></p></div><selectedcontent id=c></selectedcontent><option selected>x<i>y</i></option>",
+    "<select><button><span></span><span><selectedcontent id=a>o</selectedcontent></span><selectedcontent id=b>p</selectedcontent></button><option selected>x</option><option selected>z</option>",
     "<!DOCTYPE html><title>t</title><p>x<!--c--><svg><desc><b>y", "<math><annotation-xml encoding=text/html><p>x</math>",
     "<frameset><frame></frameset>", "<table><form><input type=hidden><input></table>", "<nobr><nobr><nobr>x",
     "<table><td><table><td>x</table>y</table>z<b>", "x<table>y<tr>z", "<li><li><dd><dt><p><h1><h2>", "<button><button>",
